@@ -324,5 +324,20 @@ func init() {
 		},
 		Gen: c20Gen,
 		Run: c20RunCase,
+		// Rare, non-reproducible wrong final frames are a consequence of the known unsynchronised
+		// concurrent redisplay (about 1 in 600 judged frames on the unchanged tree, calibrated over
+		// 7 200 cases). A rate above 3 % of the judged frames is something else: a violation.
+		Post: func(a *fw.Agg) {
+			n := 0
+			for sig, f := range a.Findings {
+				if strings.HasPrefix(sig, "screen-inconsistent-after-the-next-redisplay") {
+					n += f.Count
+				}
+			}
+			judged := a.Count["final_frames_judged"]
+			if judged >= 30 && n*100 > judged*3 {
+				a.Viol(-1, "final-frames-wrong-above-the-calibrated-rate", fmt.Sprintf("%d of %d judged final frames are wrong (calibrated bound 3 %%)", n, judged))
+			}
+		},
 	})
 }
